@@ -47,11 +47,27 @@ Definition finish (cache_mode : bool) (recovered : bool) (recpubs buf : list pub
     if recovered then ROk true (map of_pub merged) req_off latest_ep
     else ROk false [] off2 latest_ep.
 
-(* stream recovery mode *)
+(* Publications that land on the channel while the subscribe is between its
+   history read and the buffer merge (the subscriber is already in the hub and
+   buffering): each is published on the broker and reaches the subscriber's
+   PUB/SUB buffer - as a marker when the subscription's filters exclude it. *)
+Fixpoint race_pubs (filt : N -> bool) (h : hub) (ch : N) (ps : list (N * popts))
+  : hub * list pub :=
+  match ps with
+  | [] => (h, [])
+  | (id, po) :: r =>
+      let '(h1, o) := publish h ch id po in
+      let b := match o with OPub off _ 0 _ => [to_pub filt (mkItem off id)] | _ => [] end in
+      let '(h2, bs) := race_pubs filt h1 ch r in
+      (h2, b ++ bs)
+  end.
+
+(* stream recovery mode; [race] = publications arriving right after the history read *)
 Definition sub_stream (lim : Z) (filt : N -> bool) (h : hub) (ch req_off req_ep : N)
-           (reject : bool) (meta : N) : hub * sres :=
+           (reject : bool) (meta : N) (race : list (N * popts)) : hub * sres :=
   let f := mkFilter (Some (req_off, req_ep)) (rec_limit lim) false in
-  let '(h1, r) := node_history h ch f meta in
+  let '(h0, r) := node_history h ch f meta in
+  let '(h1, buf) := race_pubs filt h0 ch race in
   match r with
   | CErr code =>
       if code =? ErrUnrecoverablePosition then
@@ -59,7 +75,7 @@ Definition sub_stream (lim : Z) (filt : N -> bool) (h : hub) (ch req_off req_ep 
         else
           (* the result still carries the stream position *)
           match snd (hub_get h ch f meta) with
-          | OHist _ top ep => (h1, finish false false [] [] top ep req_off)
+          | OHist _ top ep => (h1, finish false false [] buf top ep req_off)
           | _ => (h1, RErr 100)
           end
       else (h1, RErr code)
@@ -74,8 +90,8 @@ Definition sub_stream (lim : Z) (filt : N -> bool) (h : hub) (ch req_off req_ep 
              end in
       if negb recovered then
         if reject then (h1, RErr ErrUnrecoverablePosition)
-        else (h1, finish false false [] [] top ep req_off)
-      else (h1, finish false true (map (to_pub filt) items) [] top ep req_off)
+        else (h1, finish false false [] buf top ep req_off)
+      else (h1, finish false true (map (to_pub filt) items) buf top ep req_off)
   end.
 
 (* recoverCache *)
@@ -110,12 +126,13 @@ Definition is_cache_recovered (latest recp : option item) (top ep req_off req_ep
 
 (* the scripted cache-empty handler: absent / reports not populated /
    publishes one publication and reports populated *)
-Inductive chandler := HNone | HNo | HPopulate (id : N) (po : popts).
+Inductive chandler := HNone | HNo | HPopulate (ps : list (N * popts)).
 
 (* cache recovery mode *)
 Definition sub_cache (lim : Z) (use_filters : bool) (filt : N -> bool) (hnd : chandler)
-           (h : hub) (ch req_off req_ep meta : N) : hub * sres :=
-  let '(h1, r) := recover_cache lim use_filters filt h ch meta in
+           (h : hub) (ch req_off req_ep meta : N) (race : list (N * popts)) : hub * sres :=
+  let '(h0, r) := recover_cache lim use_filters filt h ch meta in
+  let '(h1, rbuf) := race_pubs filt h0 ch race in
   match r with
   | None => (h1, RErr 100)
   | Some (latest, recp, top, ep) =>
@@ -123,16 +140,13 @@ Definition sub_cache (lim : Z) (use_filters : bool) (filt : N -> bool) (hnd : ch
       let fin h' pubs buf recovered top ep :=
         (h', finish true recovered (map (to_pub (fun _ => false)) pubs) buf top ep req_off) in
       match latest, hnd with
-      | None, HNo => fin h1 pubs [] recovered top ep
-      | None, HPopulate id po =>
-          let '(h2, po_out) := publish h1 ch id po in
-          (* the handler's publication reaches this subscriber through the hub while the
-             subscribe is still buffering: it is in the PUB/SUB buffer (as a marker if the
-             subscription's filters exclude it) *)
-          let buf := match po_out with
-                     | OPub off _ 0 _ => [to_pub filt (mkItem off id)]
-                     | _ => []
-                     end in
+      | None, HNo => fin h1 pubs rbuf recovered top ep
+      | None, HPopulate ps =>
+          (* the handler's publications reach this subscriber through the hub while the
+             subscribe is still buffering: they are in the PUB/SUB buffer (as markers if
+             the subscription's filters exclude them) *)
+          let '(h2, hbuf) := race_pubs filt h1 ch ps in
+          let buf := rbuf ++ hbuf in
           if negb recovered then
             let '(h3, r2) := recover_cache lim use_filters filt h2 ch meta in
             match r2 with
@@ -142,7 +156,7 @@ Definition sub_cache (lim : Z) (use_filters : bool) (filt : N -> bool) (hnd : ch
                 fin h3 pubs2 buf recovered2 top2 ep2
             end
           else fin h2 pubs buf recovered top ep
-      | _, _ => fin h1 pubs [] recovered top ep
+      | _, _ => fin h1 pubs rbuf recovered top ep
       end
   end.
 
